@@ -2114,3 +2114,36 @@ Lemma quiet_run_quiescent : ready_quiescent 4 (fun _ => false) quiet_run.
 Proof. apply rq_check_sound. vm_compute. reflexivity. Qed.
 Lemma quiet_run_dbar : dbar (gp quiet_run 0) (0, 0, 1) = Some 85.
 Proof. vm_compute. reflexivity. Qed.
+
+(* ---- a fully quiescent n = 4, t = 1 run: every message handed over, deliver buffers empty ------------------------ *)
+Definition done_events : list event :=
+  let snd_ := Msg 0 0 1 1 42 in let ech := Msg 0 0 1 2 85 in let rdy := Msg 0 0 1 3 85 in
+  EBcast 0 42 0 ::
+  map (fun p => ERecv p 0 snd_) [0;1;2;3] ++
+  flat_map (fun p => map (fun l => ERecv p l ech) [0;1;2;3]) [0;1;2;3] ++
+  flat_map (fun p => map (fun l => ERecv p l rdy) [0;1;2;3]) [0;1;2;3].
+Notation done_run := (grun 4 1 0 Hodd (fun _ _ => false) (fun _ => false) done_events).
+
+Definition ho_check (g : gst) : bool :=
+  forallb (fun e : Z * Z * msg => match e with (l, q, m) =>
+             if (1 <=? m_act m) && (m_act m <=? 5) then filt (gp g q) (kind_of (m_act m)) l (mtag m) else true end) (gsent g).
+Lemma ho_check_sound : forall n byz g, ho_check g = true -> handed_over n byz g.
+Proof.
+  intros n byz g C l q m I _ R. unfold ho_check in C. rewrite forallb_forall in C. specialize (C _ I). cbn in C.
+  destruct ((1 <=? m_act m) && (m_act m <=? 5)) eqn:X; auto. apply andb_false_iff in X. destruct X as [X|X]; b2p; lia.
+Qed.
+Definition bd_check (n : Z) (g : gst) : bool :=
+  forallb (fun q => forallb (fun tg => negb (deliverable (gp g q) tg)) (dbuf (gp g q))) (range n).
+Lemma bd_check_sound : forall n byz g, bd_check n g = true -> buffers_drained n byz g.
+Proof.
+  intros n byz g C q Hq tg I. unfold bd_check in C. rewrite forallb_forall in C.
+  assert (Rq : In q (range n)). { apply range_in. unfold honest, is_party in Hq. b2p. lia. }
+  specialize (C q Rq). rewrite forallb_forall in C. specialize (C tg I). apply negb_true_iff in C. exact C.
+Qed.
+Lemma done_run_quiescent : forallb noswitch done_events = true /\
+  handed_over 4 (fun _ => false) done_run /\ buffers_drained 4 (fun _ => false) done_run.
+Proof.
+  split; [vm_compute; reflexivity|]. split; [apply ho_check_sound|apply bd_check_sound]; vm_compute; reflexivity.
+Qed.
+Lemma done_run_log : glog done_run = [(0, (0, 0, 1), 42); (1, (0, 0, 1), 42); (2, (0, 0, 1), 42); (3, (0, 0, 1), 42)].
+Proof. vm_compute. reflexivity. Qed.
